@@ -16,6 +16,7 @@
 #include <chrono>
 #include <cstdio>
 #include <cstdlib>
+#include <ctime>
 #include <cstring>
 #include <map>
 #include <set>
@@ -338,14 +339,18 @@ inline int minimise_main(Engine &eng, const std::string &file, const std::string
     if (first.choices.is_arr()) cs["choices"] = first.choices;
     long from_edges = graph_edges_total(cs), from_choices = cs.has("choices") ? (long) cs["choices"].size() : 0;
     bool progress = true;
-    while (progress && reruns < budget) {
+    // minimisation is best effort: bounded by re-runs AND by wall-clock (expensive cases: dense graphs, long schedules);
+    // the clock only decides when shrinking stops, the replay file written below is self-contained either way
+    const char *mw = getenv("SIM_MIN_WALL");
+    const time_t t_end = time(nullptr) + (mw ? atol(mw) : 150);
+    while (progress && reruns < budget && time(nullptr) < t_end) {
         progress = false;
         std::vector<Json> cands;
         eng.shrink_extra(cs, cands);
         generic_candidates(cs, cands);
         choice_candidates(cs, cands);
         for (auto &c : cands) {
-            if (reruns >= budget) break;
+            if (reruns >= budget || time(nullptr) >= t_end) break;
             if (!eng.valid(c)) continue;
             ChildResult r = run_in_child(eng, c, tmpbase); reruns++;
             if (r.ok && has_class(r.classes, cls)) {
